@@ -310,6 +310,11 @@ fire('C11', 'reported-size-counts-named', ('src/Parameters.cpp', """size_t ezc3d
 {
     return static_cast<size_t>(std::count_if(_groups.begin(), _groups.end(), [](const ezc3d::ParametersNS::GroupNS::Group& g) { return !g.name().empty(); }));"""))
 
+# ---- third mutation sweep (sibling identifiers)
+fire('C02', 'labels-guarded-by-other-section', ('src/Data.cpp', 'if (file.header().nb3dPoints() > 0)\n        pointNames', 'if (file.header().nbAnalogs() > 0)\n        pointNames'))
+fire('C02', 'channel-names-from-point-labels', ('src/Data.cpp', 'analogNames = file.parameters().group("ANALOG").parameter("LABELS").valuesAsString();', 'analogNames = file.parameters().group("POINT").parameter("LABELS").valuesAsString();'))
+fire('C05', 'skip-guard-other-parameter', (W, 'if (nFrames != static_cast<size_t>(grpPoint.parameter("FRAMES").valuesAsInt()[0])){', 'if (nFrames != static_cast<size_t>(grpPoint.parameter("USED").valuesAsInt()[0])){'))
+
 def main():
     made = 0
     skipped = []
